@@ -124,10 +124,17 @@ def patch_process():
     @contextmanager
     def p_transaction(self, **kw):
         c = _client()
-        if c is not None and not self.isInTransaction():
+        outer = c is not None and not self.isInTransaction()
+        passive = getattr(c, "passive", False)
+        if outer and not passive:
             c.last = "txn"
             c.park("txn")
         with orig_tx(self, **kw) as r:
+            if outer and passive:
+                # unscheduled run: stamp the block once it HOLDS the write lock (BEGIN IMMEDIATE has returned), so the
+                # recorded order is the order in which the blocks actually executed, not the order of arrival at the seam
+                c.last = "txn"
+                c.park("txn")
             yield r
     Database._transaction = p_transaction
 
@@ -136,11 +143,16 @@ def patch_process():
     @contextmanager
     def p_query(self, sql, *a, **k):
         c = _client()
-        if c is not None and not self.isInTransaction():
+        outer = c is not None and not self.isInTransaction()
+        passive = getattr(c, "passive", False)
+        if outer and not passive:
             if c.last != "read":
                 c.last = "read"
                 c.park("read")
         with orig_q(self, sql, *a, **k) as r:
+            if outer and passive and c.last != "read":     # stamped once the statement has executed (it held the lock)
+                c.last = "read"
+                c.park("read")
             yield r
     Database.query = p_query
 
@@ -473,11 +485,13 @@ def run_serial(setup_ops, programs, order):
 
 
 class Observer:
-    """Stands in for `Client` in an unscheduled run: the seams only RECORD (client, call index, kind) in the order in
-    which the threads reach them (approximate: taken just before the block / read / file operation starts)."""
+    """Stands in for `Client` in an unscheduled run: the seams only RECORD (client, call index, kind), appended to one
+    list under one lock = a global monotonic stamp.  A block / a read is stamped while it holds SQLite's write lock, so the
+    recorded order of blocks is their real execution order; a file operation is stamped just before it starts."""
 
     def __init__(self, idx, steps, lock, butler):
         self.idx, self.steps, self.lock, self.butler = idx, steps, lock, butler
+        self.passive = True
         self.op_index = -1
         self.last = None
 
